@@ -35,7 +35,7 @@ ASSUMPTIONS = [
 ]
 OPEN_STATEMENTS = [
     'canonicity is proved for all three algebras (canonicity_fermion / canonicity_boson / canonicity_quad, hbar != 0) for the Model with tolerance 0 and action codes 0 / 1; exponent vectors / basis states range over all canonical ones, not only those the driver enumerates',
-    'tolerance: soundness / canonicity are proved for the Model with tolerance 0 and transferred to the real EQ_TOLERANCE on lattice inputs (1/D)Z[i], tol*D <= 1 (normal_ordered_exact_regime: fermions, bosons, quadratures with Gaussian-integer hbar; normal_ordered_exact_regime_quad_fractional: hbar = (p+qi)/E such as 1/2, for terms of length <= K and tol*D*E^K <= 1); the lattice hypothesis is the decidable test latB which the driver evaluates on every generated operator and the harness counts (normal_ordered_exact_regime_of_latB); inputs off the lattice are outside the theorems',
+    'tolerance: soundness / canonicity are proved for the Model with tolerance 0 and, on lattice inputs, for the executed function with the real EQ_TOLERANCE (normal_ordered_sound_melF_tol, normal_ordered_sound_boson_spec_tol, quad_sound_hbar_spec_tol(_fractional), canonicity_fermion_tol, canonicity_boson_tol, canonicity_quad_tol(_fractional); the executed function maps the lattice to itself and is idempotent there: normal_ordered_lattice_closed, normal_ordered_idempotent_tol / _boson_tol / _quad_tol; at tolerance 0 for all inputs: normal_ordered_idempotent / _boson / _quad); the transfer is (1/D)Z[i], tol*D <= 1 (normal_ordered_exact_regime: fermions, bosons, quadratures with Gaussian-integer hbar; normal_ordered_exact_regime_quad_fractional: hbar = (p+qi)/E such as 1/2, for terms of length <= K and tol*D*E^K <= 1); the lattice hypothesis is the decidable test latB which the driver evaluates on every generated operator and the harness counts (normal_ordered_exact_regime_of_latB); inputs off the lattice are outside the theorems',
     'InteractionOperator branch: generators, closed form and soundness of the two-body tensor are proved; that constant and one-body tensor are copied and the argument is not modified is checked by the correspondence run; reorder: proved for Fermion / Boson / QuadOperator (relabelling of the generators) and for QubitOperator (Spec.melQ of the relabelled strings)',
     'termination fuel: noTerm uses fuel len(term)+1; that this fuel never runs out is a consequence of the soundness theorem for tolerance 0 (an exhausted fuel would return the empty dictionary) and is otherwise covered by the correspondence run',
 ]
